@@ -32,7 +32,7 @@ type c09Case struct {
 
 var c09Names = []string{"a", "b", "c", "d"}
 
-// a script variant: kind 0 = valid with the given use targets, 1 = unparsable, 2 = check-failing
+// a script variant: kind 0 = valid with the given use targets, 1 = unparsable, 2 = check-failing, 3 = check-failing with a multi-entry error chain
 type c09Var struct {
 	Kind int
 	Uses []string
@@ -51,7 +51,7 @@ func c09Variants(maxUses int) []c09Var {
 			}
 		}
 	}
-	vs = append(vs, c09Var{Kind: 1}, c09Var{Kind: 2})
+	vs = append(vs, c09Var{Kind: 1}, c09Var{Kind: 2}, c09Var{Kind: 3})
 	return vs
 }
 
@@ -63,6 +63,9 @@ func (v c09Var) Src() string {
 		return "p(1)\n((("
 	case 2:
 		return "p(1)\n  nosuch()"
+	case 3:
+		// a check error whose own position chain has several entries (and spare capacity)
+		return "p(1)\n len(len({1: 2}))"
 	}
 	s := "p(1)\n"
 	for i, u := range v.Uses {
@@ -262,6 +265,15 @@ func c09CheckErr(name string, set map[string]c09Var, srcs map[string]string, e e
 		tv, exists := set[tgt]
 		if !exists {
 			return fmt.Sprintf("entry %d reports the use of missing script %q but is not the first entry", i, tgt)
+		}
+		if tv.Kind != 0 {
+			// everything before this call site is the callee's own load error (one or more entries, all in the callee)
+			for j := 0; j < i; j++ {
+				if ch[j].File != tgt {
+					return fmt.Sprintf("entry %d is in %q, expected %q's own load error before the call site", j, ch[j].File, tgt)
+				}
+			}
+			return ""
 		}
 		if tv.Kind == 0 && c09OnCycleVia(set, e.File, tgt) && i == 1 {
 			// the cycle-closing call: entry 0 is the cycle report
@@ -514,8 +526,8 @@ func init() {
 	run.Register(&run.Check{
 		ID:    "C09",
 		Level: "model_checking",
-		Rule: "script sets over names {a,b,c,d}: each script is valid with an ordered list of <=2 use targets in {a,b,c,d,missing} (31 variants), unparsable, or check-failing; ALL sets of 1..3 scripts (33+33^2+33^3) under ALL parse/check orders x ALL link orders of the loader's two map iterations (overlay rewrite of the range statements), " +
-			"4-script sets with <=1 use each (quick) / all 33^4 (thorough) under all 24 link orders; every (set, order) is a fresh ParseScript; oracle: verdict map == graph-reachability reference (hence equal across orders), every use call of an accepted script bound to the accepted script of that name, " +
+		Rule: "script sets over names {a,b,c,d}: each script is valid with an ordered list of <=2 use targets in {a,b,c,d,missing} (31 variants), unparsable, check-failing, or check-failing with a multi-entry error chain; ALL sets of 1..3 scripts (34+34^2+34^3) under ALL parse/check orders x ALL link orders of the loader's two map iterations (overlay rewrite of the range statements), " +
+			"4-script sets with <=1 use each (quick) / all 34^4 (thorough) under all 24 link orders; every (set, order) is a fresh ParseScript; oracle: verdict map == graph-reachability reference (hence equal across orders), every use call of an accepted script bound to the accepted script of that name, " +
 			"a dependency-rejected script's position chain = root cause (callee's own error, use of a missing name, or cycle-closing call) followed by the use call sites outward, every entry inside the file it names; plus the unmodified map order 8x on a third of the 3-script sets (conformance of the seam)",
 		Assumptions: []string{"the loader's only nondeterminism is the iteration order of its two script maps (checked by grep: pkg/engine has no other map range, goroutine or clock)"},
 		Run:            c09Run,
